@@ -14,9 +14,10 @@ Every reader is a function of the file's lines (`readFileByLine`) to `Res`:
 libc parsers (`strtoll` behind `std::stoll` and `sscanf %d/%ld/%lu`, `strtof` behind `std::stof`) are
 modelled by their accepted prefix language: optional white space, optional sign, decimal digits
 (`strtof`: digits with an optional fraction; exponents, hex floats, `inf`, `nan` are outside the
-kernel's grammar and outside this model).  Written from the code line by line; the model describes
-`readDirFromDIR` WITH the proposed fix `fixes/C15-readdir-dtype.patch` (directories found through the
-`fstatat` fallback are returned as directories).
+kernel's grammar and outside this model).  Written from the code line by line, as it is after the
+`fix:` commits af9b740 (empty control file = error), 183405d (= `fixes/C15-readdir-dtype.patch`:
+directories found through the `fstatat` fallback of `readDirFromDIR` are returned as directories),
+ed41fc7 (missing `pswpout`) and 8db4465 (missing `pgscan`).
 -/
 
 namespace OomdModel.FsRead
@@ -189,9 +190,12 @@ def idx {α} (l : List α) (i : Nat) (what : String) : Res α :=
 
 /-! ## single-value files -/
 
-/-- `Fs::readMemcurrentAt`, `readSwapCurrentAt`, `readPidsCurrentAt`: `stoll((*lines)[0])` -/
+/-- `Fs::readMemcurrentAt`, `readSwapCurrentAt`, `readPidsCurrentAt`: an empty file is an error
+(fix af9b740), otherwise `stoll((*lines)[0])` -/
 def readFirstLineInt (lines : List Str) : Res Int :=
-  (idx lines 0 "(*lines)[0]").bind stoll
+  match lines with
+  | [] => .unavailable
+  | l :: _ => stoll l
 
 def maxStr : Str := s "max"
 
@@ -370,7 +374,7 @@ inductive EntKind where
   | dir | reg | other
 deriving Repr, DecidableEq
 
-/-- `Fs::readDirFromDIR(d, DE_DIR)` as fixed by `fixes/C15-readdir-dtype.patch`: the names of the
+/-- `Fs::readDirFromDIR(d, DE_DIR)` as fixed by `fixes/C15-readdir-dtype.patch` (commit 183405d): the names of the
 directories, dot files skipped, whether or not the filesystem fills in `d_type`.
 (Unfixed code: with `d_type == DT_UNKNOWN` directories are appended to `files`, `dirs` stays empty.) -/
 def readDirDirs (ents : List (Str × EntKind)) (_dtypeSupported : Bool) : List Str :=
